@@ -4,7 +4,8 @@ A real Cluster with 1-2 Sessions runs over FakeNodes (10.0.0.1 = contact point c
 connection, 10.0.0.<h> = subject host h).  The thread pool and the scheduler thread are the simulation's
 SimExecutor (inline=False) and SimScheduler, so each spec action is one harness operation:
 
-  Exec(t)            run the queued executor task whose descriptor is t
+  Exec(t)            run the queued executor task whose descriptor is t (a reconnector's run() as a logical thread that
+                     stops where its connection attempt starts; Exec(ReconConn) lets the attempt finish)
   Fire(e)            let the scheduler hand entry e to the executor
   ConnFailure(s,h)   break the pool connection, then what the heartbeat does: pool.return_connection(conn)
   StatusEvent/TopologyEvent   push the event frame on the control connection (peers list of node 1 adjusted)
@@ -221,6 +222,19 @@ class HostsHarness:
             self.ds.yield_point("set_new_connection")
             return set_new(conn)
         self.cc._set_new_connection = set_new_connection_with_yield
+        # a reconnector's connection attempt takes time: the logical thread running handler.run() stops where the
+        # attempt starts (before the simulated connect, whose outcome is the node's mode when the thread goes on)
+        make_factory = self.cluster._make_connection_factory
+
+        def make_connection_factory_with_yield(host, *a, **k):
+            real = make_factory(host, *a, **k)
+
+            def factory():
+                self.ds.yield_point("recon:connect")
+                return real()
+            return factory
+        self.cluster._make_connection_factory = make_connection_factory_with_yield
+        self.recon_threads = []       # parked _ReconnectionHandler.run calls: (thread, handler)
         # yield points of Cluster.shutdown: where it starts iterating the sessions, where it shuts the executor
         self.cluster.sessions = _YieldingWeakSet(self.cluster.sessions)
         self.cluster.sessions.order = self._sess_num
@@ -371,6 +385,11 @@ class HostsHarness:
             return T("?%s:%s" % (name, type(ex).__name__))
         return T("?" + str(name))
 
+    def _recon_desc(self, handler):
+        host = handler.host
+        return T("ReconConn", h=num_of(host.address), kind="att" if host._reconnection_handler is handler else "det",
+                 f1=handler._cancelled, f2=handler.is_host_addition)
+
     def _cont_desc(self, frame, rec):
         loc = frame.f_locals
         h = num_of(loc["host"].address)
@@ -411,6 +430,16 @@ class HostsHarness:
                 raise HarnessError("no control connection reconnect is waiting to install its connection")
             self.ds.finish(self.cc_threads.pop(0))
             return
+        if want[0] == "ReconConn":
+            for i, (th, handler) in enumerate(self.recon_threads):
+                if self._recon_desc(handler) == want:
+                    del self.recon_threads[i]
+                    self._parking = None
+                    if self.ds.run_until(th, "on_up:second") != "end":      # FineUp: on_up called by the reconnector
+                        self.up_threads.append((th, self._parking, True))
+                    return
+            raise HarnessError("no reconnection attempt in flight %s; in flight=%s"
+                               % (want, [self._recon_desc(x) for _, x in self.recon_threads]))
         if want[0] == "OnUpCont":
             for i, (th, fr, rec) in enumerate(self.up_threads):
                 if self._cont_desc(fr, rec) == want:
@@ -423,12 +452,17 @@ class HostsHarness:
                 break
         else:
             raise HarnessError("no queued executor task %s; queue=%s" % (want, [d for d, _ in self.exec_items()]))
-        if self.fine and want[0] in ("OnUp", "Recon"):
+        if want[0] == "Recon":
+            th = self._spawn("RC", self.ex.run, t)
+            if self.ds.run_until(th, "recon:connect") != "end":
+                self.recon_threads.append((th, t.fn.__self__))
+            return
+        if self.fine and want[0] == "OnUp":
             th = self._spawn("UP", self.ex.run, t)
             self._parking = None
             lab = self.ds.run_until(th, "on_up:second")
             if lab != "end":
-                self.up_threads.append((th, self._parking, want[0] == "Recon"))
+                self.up_threads.append((th, self._parking, False))
             return
         if want[0] == "CtlReconnect":
             th = self._spawn("CC", self.ex.run, t)
@@ -563,6 +597,8 @@ class HostsHarness:
         ex = Counter(d for d, _ in self.exec_items())
         for _ in self.cc_threads:
             ex[T("CtlSet")] += 1
+        for _, handler in self.recon_threads:
+            ex[self._recon_desc(handler)] += 1
         open_sets = set()
         for th, fr, rec in self.up_threads:
             ex[self._cont_desc(fr, rec)] += 1
@@ -602,7 +638,8 @@ class HostsHarness:
     # ------------------------------------------------------------------ after shutdown() returned
     def returned(self):
         th = self.shut_thread and self.ds.threads[self.shut_thread]
-        return bool(th and th.done and not self.exec_items() and not self.cc_threads and not self.up_threads)
+        return bool(th and th.done and not self.exec_items() and not self.cc_threads and not self.up_threads
+                    and not self.recon_threads)
 
     def after_return_probe(self):
         """Everything that could still run once shutdown() has returned is given the chance to: scheduler entries,
@@ -656,7 +693,7 @@ class HostsHarness:
                 self._shut_step(())
         except Exception:
             pass
-        for th in self.cc_threads + [x[0] for x in self.up_threads]:
+        for th in self.cc_threads + [x[0] for x in self.up_threads] + [x[0] for x in self.recon_threads]:
             try:
                 self.ds.finish(th)
             except Exception:
